@@ -534,6 +534,7 @@ pub fn explore(seed: u64, st: &mut Stats) -> Vec<Replay> {
     Stats::bump(&mut st.extra, "calls_that_must_panic", cnt.panics_expected);
     let digest = crate::plan::fnv(serde_json::to_string(&ops).unwrap().as_bytes());
     st.inters.insert(digest);
+    crate::driver::chain(crate::res::mix(digest, vs.len() as u64));
     if cnt.mismatch_calls + cnt.fault_default + cnt.fault_closure + cnt.fault_drop > 0 {
         st.nontrivial.insert(digest);
     }
